@@ -271,6 +271,107 @@ end LdarModel.Generated.SimNumber
 """
 
 
+def _contains_marker_removal(node, name="n_sim_loc"):
+    for c in ast.walk(node):
+        if isinstance(c, ast.Call) and isinstance(c.func, ast.Attribute):
+            if c.func.attr == "remove" and c.args and isinstance(c.args[0], ast.Name) and c.args[0].id == name:
+                return True
+            if c.func.attr == "unlink" and isinstance(c.func.value, ast.Name) and c.func.value.id == name:
+                return True
+    return False
+
+
+def _opens(node, name):
+    """`with open(<name>, "wb") as f:`"""
+    if not isinstance(node, ast.With):
+        return False
+    for it in node.items:
+        c = it.context_expr
+        if isinstance(c, ast.Call) and isinstance(c.func, ast.Name) and c.func.id == "open" and c.args \
+                and isinstance(c.args[0], ast.Name) and c.args[0].id == name:
+            mode = c.args[1].value if len(c.args) > 1 and isinstance(c.args[1], ast.Constant) else ""
+            if "w" in str(mode):
+                return True
+    return False
+
+
+def _scan_blocks(stmts, removed, looped, hits_hash, hits_marker):
+    """walk statement lists in order; record, for every write of the hash file, whether the marker was removed
+    earlier on the path, and for every write of the marker, whether a for-loop precedes it in its block"""
+    for st in stmts:
+        if _opens(st, "hash_file_loc"):
+            hits_hash.append((st.lineno, removed))
+        if _opens(st, "n_sim_loc"):
+            hits_marker.append((st.lineno, looped))
+        for field in ("body", "orelse", "finalbody", "handlers"):
+            sub = getattr(st, field, None)
+            if isinstance(sub, list) and sub and not _opens(st, "hash_file_loc") and not _opens(st, "n_sim_loc"):
+                inner = [x for h in sub for x in (h.body if isinstance(h, ast.ExceptHandler) else [h])]
+                if isinstance(st, ast.If) and _contains_marker_removal(st) and not any(
+                        isinstance(x, (ast.With, ast.For)) for x in ast.walk(st)):
+                    continue        # `if os.path.isfile(n_sim_loc): os.remove(n_sim_loc)` — handled below
+                _scan_blocks(inner, removed, False if isinstance(st, (ast.If, ast.For, ast.While, ast.Try, ast.With)) else looped,
+                             hits_hash, hits_marker)
+        if _contains_marker_removal(st) and not any(isinstance(x, (ast.With, ast.For)) for x in ast.walk(st)):
+            removed = True
+        if isinstance(st, (ast.For, ast.While)):
+            looped = True
+
+
+def read_marker_order():
+    """where n_sim_saved.p (the marker of a complete scenario set) is removed and written"""
+    out = {}
+    src = open(os.path.join(shim.REPO_SRC, "initialization", "initialize_infrastructure.py")).read()
+    fn = next((n for n in ast.parse(src).body if isinstance(n, ast.FunctionDef) and n.name == "initialize_infrastructure"), None)
+    if fn is None:
+        raise ExtractError("initialize_infrastructure.py: initialize_infrastructure not found")
+    hh, hm = [], []
+    _scan_blocks(fn.body, False, False, hh, hm)
+    if not hh:
+        raise ExtractError("initialize_infrastructure.py: no write of hash_file_loc found")
+    out["infra_hash_writes"] = hh
+    out["in_infra"] = all(r for _, r in hh)
+    src = open(os.path.join(shim.REPO_SRC, "initialization", "initialize_emissions.py")).read()
+    fn = next((n for n in ast.parse(src).body if isinstance(n, ast.FunctionDef) and n.name == "initialize_emissions"), None)
+    if fn is None:
+        raise ExtractError("initialize_emissions.py: initialize_emissions not found")
+    regen = next((n for n in fn.body if isinstance(n, ast.If) and "hash_file_exist" in ast.unparse(n.test)), None)
+    if regen is None:
+        raise ExtractError("initialize_emissions.py: `if not hash_file_exist or force_remake` not found")
+    first_loop = next((k for k, st in enumerate(regen.body) if isinstance(st, ast.For)), None)
+    if first_loop is None:
+        raise ExtractError("initialize_emissions.py: generation loop of the regeneration branch not found")
+    out["in_emis"] = any(_contains_marker_removal(st) for st in regen.body[:first_loop])
+    hh2, hm2 = [], []
+    _scan_blocks(fn.body, False, False, hh2, hm2)
+    if not hm2:
+        raise ExtractError("initialize_emissions.py: no write of n_sim_loc found")
+    out["marker_writes"] = hm2
+    out["marker_after_files"] = all(l for _, l in hm2)
+    return out
+
+
+def render_marker(m) -> str:
+    b = lambda x: "true" if x else "false"  # noqa: E731
+    return f"""/-
+GENERATED by harness/extract/units.py from /repo/LDAR_Sim/src/initialization/initialize_infrastructure.py and
+initialize_emissions.py — rewritten on every run of ./check C16, do not edit.
+writes of the hash file in initialize_infrastructure (line, marker removed before it): {m['infra_hash_writes']}
+writes of the marker n_sim_saved.p in initialize_emissions (line, after the generation loop of its block): {m['marker_writes']}
+-/
+namespace LdarModel.Generated.GenMarker
+
+/-- every branch of initialize_infrastructure that writes new hashes removes n_sim_saved.p first -/
+def removedInInfrastructure : Bool := {b(m['in_infra'])}
+/-- the regeneration branch of initialize_emissions removes n_sim_saved.p before its generation loop -/
+def removedInEmissions : Bool := {b(m['in_emis'])}
+/-- n_sim_saved.p is written only after the generation loop of its block -/
+def markerWrittenAfterFiles : Bool := {b(m['marker_after_files'])}
+
+end LdarModel.Generated.GenMarker
+"""
+
+
 # ------------------------------------------------------------------------------------------------
 def lean_rat(x: Fraction) -> str:
     n, d = x.numerator, x.denominator
@@ -412,13 +513,14 @@ def extract():
     u = read_unit_tables()
     sd = read_seed_range()
     sd["index"] = read_seed_index()
-    return {"units": u, "seed": sd, "sim_number": read_sim_number()}
+    return {"units": u, "seed": sd, "sim_number": read_sim_number(), "marker": read_marker_order()}
 
 
 def write(x):
     _write_if_changed(os.path.join(LEAN_GEN, "Units.lean"), render_units(x["units"]))
     _write_if_changed(os.path.join(LEAN_GEN, "EmisSeed.lean"), render_seed(x["seed"], x["seed"]["index"]))
     _write_if_changed(os.path.join(LEAN_GEN, "SimNumber.lean"), render_sim_number(x["sim_number"]))
+    _write_if_changed(os.path.join(LEAN_GEN, "GenMarker.lean"), render_marker(x["marker"]))
 
 
 if __name__ == "__main__":
